@@ -1284,7 +1284,23 @@ class RoundTripEnumeration(NativeCheck):
                [([sh, "6"], {}) for sh in ("tsw43", "tsw31", "tsw22")]
 
 
-NATIVE = globals().get("NATIVE", []) + [RoundTripEnumeration]
+class SparseReplayEnumeration(NativeCheck):
+    kid = "native:c20_sparse"
+    property_ids = ("C20",)
+    source = "native/bounded/c20_sparse.cpp"
+    title = ("a sparse (absolute-time) in-memory recording replayed from any start cycle reproduces, from that cycle on, exactly the "
+             "recorded ticks at their own times")
+    bound_text = ("bounded: replay -> sparse_record(':memory:') of a TS<Int>, then replay(recordable_id) -> dense_record in a second run "
+                  "starting at cycle s: every tick pattern over H cycles (2^H - 1) x every start cycle 0..H; quick H = 5 (186 runs), "
+                  "thorough H = 9 (5 110 runs)")
+    functions = ("record_replay_memory_impl.h: replay_impl::eval (absolute-time catch-up and re-scheduling), sparse_record_impl",
+                 "record_replay.cpp: memory recording layout")
+
+    def runs(self, tier):
+        return [(["9" if tier == "thorough" else "5"], {})]
+
+
+NATIVE = globals().get("NATIVE", []) + [RoundTripEnumeration, SparseReplayEnumeration]
 
 
 # ---------------------------------------------------------------- delta_has_effect_tsb (C20_r6_3)
